@@ -28,6 +28,11 @@ class Unit:
     def expected(self, recipe) -> tuple:
         raise NotImplementedError
 
+    def observe_decoded(self, obj) -> tuple:
+        """observe() plus what only a DECODED object carries (e.g. the received CRC it stores and re-emits with
+        pack(recalc_crc=False)); used where two decodes are compared with each other (C09)"""
+        return self.observe(obj)
+
     def declared_len(self, obj) -> int:
         return obj.packet_len
 
